@@ -856,3 +856,6 @@ def run(ctx):
     r6(ctx)
     from .c02 import r5 as rebuilders_keep_the_marker
     rebuilders_keep_the_marker(ctx, rule="C08.R7")
+    # the descriptor constants of a SEQUENCE / SET are printed from the model's own fields (shared with C03)
+    from .c03 import r5 as sequence_constants
+    sequence_constants(ctx, rule="C08.R8")
